@@ -216,6 +216,7 @@ class Ctx:
             return k, fn, rc, out
 
         bad = []
+        t_eval = time.time()
         with concurrent.futures.ThreadPoolExecutor(max_workers=int(os.environ.get("VERIF_JOBS", "16"))) as ex:
             for k, fn, rc, out in ex.map(run, files):
                 if rc != 0:
@@ -228,6 +229,8 @@ class Ctx:
                     raise RuntimeError("sentinel missing in coqc output for %s" % fn)
                 bad += [k + i for i in nums[1:]]
         self.coverage["evaluations_in_kernel"] += len(cases)
+        self.log("in-kernel evaluation %s: %d cases in %d files, %.1fs, %d disagreements" %
+                 (name, len(cases), len(files), time.time() - t_eval, len(bad)))
         return sorted(bad)
 
     # ------------------------------------------------------------ bookkeeping
